@@ -14,7 +14,7 @@ from symx import core, patch
 from symx.fs import SymFS
 
 
-def run_taster(mods, ref, corrs, nofail, ctx, coords=False, cli=False, verbose=None):
+def run_taster(mods, ref, corrs, nofail, ctx, coords=False, cli=False, verbose=None, cpus=None):
     Taster = mods['amr_kitchen.taste.taste'].Taster
     fs = SymFS()
     ref.write_symfs(fs, '/work/plt')
@@ -29,7 +29,12 @@ def run_taster(mods, ref, corrs, nofail, ctx, coords=False, cli=False, verbose=N
     stubs = {}
     if coords:
         stubs = {'amr_kitchen.plotfile_cooker': {'float': sym_float}}
-    with patch.Patched(mods, fs, stubs=stubs), common.quiet() as buf:
+    sched = None
+    if cpus:
+        # the machine: a host that reports that many CPUs (pools are sized from it; so is any batching the validator may do)
+        from symx import pool as _pool
+        sched = _pool.Schedule('identity', workers=cpus)
+    with patch.Patched(mods, fs, stubs=stubs, schedule=sched), common.quiet() as buf:
         try:
             if cli:
                 # the command-line entry point in failing mode (`taste plt [-bc]`): it must end in an exception / non-zero exit
@@ -80,17 +85,19 @@ def judge(outcome, nofail):
     return 'reports the plotfile %s without raising in failing mode' % outcome
 
 
-def explore_corr(mods, ref, corrs, res, viol, coords=False, label=None, both_modes=True, cli=False, verbose=None):
+def explore_corr(mods, ref, corrs, res, viol, coords=False, label=None, both_modes=True, cli=False, verbose=None, cpus=None):
     label = label or ' + '.join(c.label for c in corrs)
     if verbose is not None:
         label = 'verbose=%r: %s' % (verbose, label)
     if cli:
         label = '`taste plt%s` on: %s' % (' --box_coords' if coords else '', label)
+    if cpus:
+        label = 'on a host with %d CPUs: %s' % (cpus, label)
     cls = '+'.join(sorted(set(c.cls for c in corrs)))
     for nofail in ((False,) if cli else ((True, False) if both_modes else (True,))):
         def path(ctx, nofail=nofail):
             obl = Obl(ctx)
-            outcome, detail, _ = run_taster(mods, ref, corrs, nofail, ctx, coords, cli=cli, verbose=verbose)
+            outcome, detail, _ = run_taster(mods, ref, corrs, nofail, ctx, coords, cli=cli, verbose=verbose, cpus=cpus)
             obl.total += 1
             bad = judge(outcome, nofail)
             if bad is None:
@@ -104,9 +111,9 @@ def explore_corr(mods, ref, corrs, res, viol, coords=False, label=None, both_mod
         for ctx, obl in results:
             res.add_obl(obl)
             if obl.failed and not ctx.flags:
-                sig = 'C04/%s%s/%s' % ('cli/' if cli else '', cls, 'accepted' if 'good' in obl.failed[0][0] else ('raises-nofail' if 'raises in non' in obl.failed[0][0] else 'no-raise-failmode'))
+                sig = 'C04/%s%s%s/%s' % ('cli/' if cli else '', 'cpus/' if cpus else '', cls, 'accepted' if 'good' in obl.failed[0][0] else ('raises-nofail' if 'raises in non' in obl.failed[0][0] else 'no-raise-failmode'))
                 if sig not in viol:
-                    viol[sig] = {'signature': sig, 'what': obl.failed[0][0], 'corrs': corrs, 'nofail': nofail, 'coords': coords, 'cli': cli, 'verbose': verbose,
+                    viol[sig] = {'signature': sig, 'what': obl.failed[0][0], 'corrs': corrs, 'nofail': nofail, 'coords': coords, 'cli': cli, 'verbose': verbose, 'cpus': cpus,
                                  'model': obl.failed[0][1], 'pc': ctx}
     return
 
@@ -125,6 +132,12 @@ def run_case(case):
         lo_, hi_ = case['sites']
         for i, c in enumerate(c for c in singles if lo_ <= c.site[2] < hi_):
             explore_corr(mods, ref, [c], res, viol, both_modes=(i % 16 == 0))
+            n += 1
+        singles = []
+    if case.get('cpus'):
+        # more binary files on a level than the host has CPUs: every single corruption, wherever its file comes in the level's list
+        for i, c in enumerate(singles):
+            explore_corr(mods, ref, [c], res, viol, both_modes=(i % 4 == 0), cpus=case['cpus'])
             n += 1
         singles = []
     for i, c in enumerate(singles):
@@ -219,6 +232,9 @@ def make_replay(ref, v, pid):
     if v.get('cli'):
         run = ("import sys, contextlib, io\nfrom amr_kitchen.taste import cli\nsys.argv = ['taste', os.path.join(IN, 'plt')] + %r\nRESULT = None\n"
                "with contextlib.redirect_stdout(io.StringIO()):\n    cli.main()\nRESULT = 1.0\n" % (['--box_coords'] if v.get('coords') else [],))
+    if v.get('cpus'):
+        run = ("os.cpu_count = lambda: %d\nif hasattr(os, 'process_cpu_count'):\n    os.process_cpu_count = lambda: %d\n"
+               "if hasattr(os, 'sched_getaffinity'):\n    os.sched_getaffinity = lambda pid=0: set(range(%d))\n" % ((v['cpus'],) * 3)) + run
     if v['nofail']:
         expected = {'kind': 'value', 'close': 0.0}
     else:
@@ -245,6 +261,12 @@ def cases():
                 lays = lays[::3]
             for lay in lays:
                 out.append({'label': '%s/layout%s' % (m.name, lay), 'mesh': m, 'fields': fsets[1], 'layout': [lay], 'geom': 1})
+    # more binary files on a level than the host has CPUs (3 files on 2 CPUs, 4 files on 3 CPUs)
+    for mname, nb_, cpus in [('3d-3box-x', 3, 2), ('2d-3box', 3, 2)] + ([] if tier == 'quick' else [('3d-3box-x', 3, 1)]):
+        m = [x for x in meshes if x.name == mname][0]
+        out.append({'label': '%s/%dfiles-%dcpus' % (mname, nb_, cpus), 'mesh': m, 'fields': fsets[1], 'layout': [[(k, 0) for k in range(nb_)]], 'geom': 1, 'cpus': cpus})
+    gm4 = families.grid_mesh((2, 2))
+    out.append({'label': '%s/4files-3cpus' % gm4.name, 'mesh': gm4, 'fields': fsets[0], 'layout': [[(k, 0) for k in range(gm4.nboxes()[0])]], 'geom': 0, 'cpus': 3})
     # one binary file holding many boxes (beyond 32, 64 and 128): every in-file position, shared out over several cases
     for counts, nfiles, share in [((12, 11), 1, 12)] + ([] if tier == 'quick' else [((23, 12), 1, 12), ((9, 5, 6), 2, 15)]):
         gm = families.grid_mesh(counts)
